@@ -129,3 +129,103 @@ proof fn lemma_encodes_gives_wf<V>(n: NfaBuilder<char, V>, st: Seq<State>, table
     lemma_link_rank(n, st, table, idmap, 0);
     assert(cw_ranked(st, lm, w));
 }
+
+// ---- the char-wise double array simulates the sparse NFA (standard kind) ----
+spec fn nfa_nd<V>(n: NfaBuilder<char, V>, s: int, c: char) -> int
+    decreases nfa_depth(n, s)
+    when nfa_tree(n) && nfa_links(n, false) && 0 <= s < n.states@.len() && s != 1
+{
+    if nfa_edges(n, s).contains_key(c) { nfa_edges(n, s)[c] as int }
+    else if s == 0 { 0 }
+    else { nfa_nd(n, n.states@[s].fail as int, c) }
+}
+proof fn lemma_nd_range<V>(n: NfaBuilder<char, V>, s: int, c: char)
+    requires nfa_tree(n), nfa_links(n, false), 0 <= s < n.states@.len(), s != 1,
+    ensures 0 <= nfa_nd(n, s, c) < n.states@.len(), nfa_nd(n, s, c) != 1,
+    decreases nfa_depth(n, s),
+{
+    if nfa_edges(n, s).contains_key(c) { }
+    else if s == 0 { }
+    else { lemma_nd_range(n, n.states@[s].fail as int, c); }
+}
+// a character that labels no edge at all sends every state to the root
+proof fn lemma_nd_no_edge<V>(n: NfaBuilder<char, V>, s: int, c: char)
+    requires nfa_tree(n), nfa_links(n, false), 0 <= s < n.states@.len(), s != 1,
+        forall|t: int| 0 <= t < n.states@.len() ==> !(#[trigger] nfa_edges(n, t)).contains_key(c),
+    ensures nfa_nd(n, s, c) == 0,
+    decreases nfa_depth(n, s),
+{
+    if s != 0 { lemma_nd_no_edge(n, n.states@[s].fail as int, c); }
+}
+proof fn lemma_image_live<V>(n: NfaBuilder<char, V>, st: Seq<State>, table: Seq<u32>, idmap: Seq<u32>, w: Wit, s: int)
+    requires cw_encodes(st, table, n, idmap), nfa_tree(n), cw_ranked(st, false, w), 0 <= s < n.states@.len(), s != 1,
+    ensures w.live.contains(idmap[s] as int),
+    decreases s,
+{
+    lemma_enc_basic(st, table, n, idmap, 0);
+    if s >= 2 {
+        let p = nfa_parent(n, s);
+        assert(nfa_parent_ok(n, s, p));
+        lemma_image_live(n, st, table, idmap, w, p.0);
+        lemma_enc_edge(st, table, n, idmap, p.0, p.1);
+        lemma_enc_basic(st, table, n, idmap, p.0);
+        lemma_enc_basic(st, table, n, idmap, s);
+        assert(cw_child(st, idmap[p.0] as int, code_of(table, p.1)) == Some(idmap[s]));
+        assert(w.live.contains(cw_child(st, idmap[p.0] as int, code_of(table, p.1)).unwrap() as int));
+    }
+}
+// one step with a mapped code mc = code(c)
+proof fn lemma_sim_goto<V>(n: NfaBuilder<char, V>, st: Seq<State>, table: Seq<u32>, asz: u32, idmap: Seq<u32>, s: int, c: char)
+    requires cw_encodes(st, table, n, idmap), nfa_tree(n), nfa_links(n, false), cw_wf(st, table, false), mapper_covers(n, table, asz),
+        0 <= s < n.states@.len(), s != 1, map_code(table, c as u32).is_some(),
+    ensures cw_live(st, false, idmap[s] as int),
+        cw_goto(st, table, idmap[s] as int, map_code(table, c as u32).unwrap()) == idmap[nfa_nd(n, s, c)] as int,
+    decreases nfa_depth(n, s),
+{
+    let mc = map_code(table, c as u32).unwrap();
+    let w = cw_wit(st, false);
+    assert(cw_ranked(st, false, w));
+    lemma_image_live(n, st, table, idmap, w, s);
+    lemma_enc_basic(st, table, n, idmap, s);
+    lemma_enc_basic(st, table, n, idmap, 0);
+    let x = idmap[s] as int;
+    if nfa_edges(n, s).contains_key(c) {
+        lemma_enc_edge(st, table, n, idmap, s, c);
+        let t = nfa_edges(n, s)[c] as int;
+        lemma_enc_basic(st, table, n, idmap, t);
+        assert(cw_child(st, x, mc) == Some(idmap[t]));
+    } else {
+        assert(cw_child(st, x, mc).is_none()) by {
+            if cw_child(st, x, mc).is_some() {
+                let c2 = lemma_enc_nospur(st, table, n, idmap, s, mc);
+                // c2 has the code of c, so it is c
+                assert(map_code(table, c2 as u32).is_some());
+                assert(map_code(table, c2 as u32) == map_code(table, c as u32));
+                assert(c2 == c);
+            }
+        }
+        if s == 0 { }
+        else {
+            assert(x != 0) by { if x == 0 { lemma_enc_inj(st, table, n, idmap, s, 0); } }
+            let f = n.states@[s].fail as int;
+            assert(f != 1 && 0 <= f < n.states@.len());
+            lemma_sim_goto(n, st, table, asz, idmap, f, c);
+            assert(st[x].fail == idmap[f]);
+        }
+    }
+}
+proof fn lemma_sim_delta_cw<V>(n: NfaBuilder<char, V>, st: Seq<State>, table: Seq<u32>, asz: u32, idmap: Seq<u32>, s: int, c: char)
+    requires cw_encodes(st, table, n, idmap), nfa_tree(n), nfa_links(n, false), cw_wf(st, table, false), mapper_covers(n, table, asz),
+        0 <= s < n.states@.len(), s != 1,
+    ensures cw_delta(st, table, idmap[s] as int, c as u32) == idmap[nfa_nd(n, s, c)] as int,
+{
+    lemma_enc_basic(st, table, n, idmap, 0);
+    match map_code(table, c as u32) {
+        None => {
+            // unmapped: no edge anywhere carries c
+            assert forall|t: int| 0 <= t < n.states@.len() implies !(#[trigger] nfa_edges(n, t)).contains_key(c) by { }
+            lemma_nd_no_edge(n, s, c);
+        }
+        Some(mc) => { lemma_sim_goto(n, st, table, asz, idmap, s, c); }
+    }
+}
